@@ -13,6 +13,7 @@ CONSTANTS
   Dev_RestoreNoResume = TRUE
   Dev_RecreateErrorLost = TRUE
   Dev_ArmIgnoresClose = TRUE
+  Dev_DrainDropsLoss = TRUE
   Hist = TRUE
 INIT Init
 NEXT NextGen
